@@ -42,8 +42,8 @@ def run(tool, tier, seed):
         except extract.ExtractionError as e:
             raise engine.Undecided('regex literal not found in Frame::from_bytes: %s' % e)
         exe = _build('regexeq', 'regexeq-target')
-        os.makedirs(os.path.join(CACHE, 'gen'), exist_ok=True)
-        pa = os.path.join(CACHE, 'gen', 'frame_regex_from_repo.txt')
+        os.makedirs(os.path.join(CACHE, 'gen', str(os.getpid())), exist_ok=True)
+        pa = os.path.join(CACHE, 'gen', str(os.getpid()), 'frame_regex_from_repo.txt')
         open(pa, 'w').write(pat)
         pb = os.path.join(ROOT, 'contracts', 'frame_regex_reference.txt')
         p = subprocess.run([exe, pa, pb], capture_output=True, text=True, timeout=600)
